@@ -658,3 +658,7 @@ PROPS["C01"]["claim"] += (" WHOLE (Proofs/EndToEnd/WholeC01.lean: generated_sess
 PROPS["C06"]["proofs"] = PROPS["C06"]["proofs"] + ["Bmc.Proofs.EndToEnd.DatagramC06"]
 PROPS["C06"]["claim"] += (" generated_sessionless_datagram_parses (Proofs/EndToEnd/DatagramC06.lean): EVERY datagram the session-less SendCommand AS TRANSLATED hands to the transport (retransmissions included) parses "
                           "under the reference parser as RMCP / null-session wrapper / checksum-valid IPMI message carrying exactly the command's NetFn, LUN, number, extension bytes and request data.")
+PROPS["C09"]["proofs"] = PROPS["C09"]["proofs"] + ["Bmc.Proofs.EndToEnd.HistoryC09"]
+PROPS["C09"]["claim"] += (" HISTORY FORM about the translated code (Proofs/EndToEnd/HistoryC09.lean): generatedHistory runs SendCommand AS TRANSLATED command after command, threading its own connection value; "
+                          "generatedHistory_eq — its datagrams over the whole history are the hand model's; generated_history_sequence_numbers / generated_history_no_reuse — counter+1, counter+2, … with no gap and no repeat, "
+                          "all addressed to the BMC's session ID, and no number used twice for any starting counter and up to 2^32 transmissions.")
